@@ -67,7 +67,9 @@ def guarded_run(mod, plan, **kw):
     import threading
 
     def on_alarm(signum, frame):
-        raise RunTimeout()
+        e = RunTimeout()
+        e.where = ''.join(traceback.format_stack(frame)[-14:])
+        raise e
     use_alarm = threading.current_thread() is threading.main_thread()
     if use_alarm:
         old = signal.signal(signal.SIGALRM, on_alarm)
@@ -76,7 +78,13 @@ def guarded_run(mod, plan, **kw):
         signal.setitimer(signal.ITIMER_REAL, RUN_TIMEOUT_S, 0.05)
     try:
         return mod.run(plan, **kw)
-    except RunTimeout:
+    except RunTimeout as rt:
+        for _ in range(3):
+            try:
+                signal.setitimer(signal.ITIMER_REAL, 0)
+                break
+            except RunTimeout:
+                pass
         busy = []
         for tid, fr in sys._current_frames().items():
             if tid == threading.get_ident():
@@ -94,6 +102,21 @@ def guarded_run(mod, plan, **kw):
                 busy.append(' <- '.join('%s:%d %s' % (
                     os.path.basename(f.filename), f.lineno, f.name)
                     for f in reversed(code[-6:])))
+        if not busy:
+            # no actor is inside the code under test: the harness itself is
+            # stuck; leave every thread's stack for the post-mortem
+            try:
+                import faulthandler
+                with open(os.path.join(
+                        os.environ.get('VERIF_REPLAY_DIR') or '/dev/shm',
+                        'stuck-%d.txt' % os.getpid()), 'w') as fh:
+                    from .kernel import Kernel
+                    fh.write('%s\n' % Kernel.last.describe())
+                    fh.write('kernel thread was at:\n%s\n' % getattr(
+                        rt, 'where', '?'))
+                    faulthandler.dump_traceback(fh, all_threads=True)
+            except Exception:  # noqa
+                pass
         where = busy[0] if busy else 'unknown'
         fn = where.split(' ')[0].split(':')[0] if busy else 'unknown'
         return {'violations': [{
@@ -334,7 +357,12 @@ def replay_file(path, quiet=False):
     with open(path) as f:
         doc = json.load(f)
     mod = load_prop(doc['property'])
-    out = guarded_run(mod, doc['plan'], sched_values=doc['schedule'])
+    if doc.get('log_digest') == 'timeout' and not doc['schedule']:
+        # a run that never ended has no recorded tape: it is re-generated
+        # from the run's seed
+        out = guarded_run(mod, doc['plan'], sched_seed=doc['run_seed'])
+    else:
+        out = guarded_run(mod, doc['plan'], sched_values=doc['schedule'])
     sigs = _sig_set(out)
     ok = (doc['clause'], doc['signature']) in sigs
     same_digest = out.get('digest') == doc.get('log_digest')
@@ -480,7 +508,7 @@ def check(pid, tier='quick', verif_seed=0, workers=None, n_runs=None,
                 dst = os.path.join(VERIF, k.get('replay') or
                                    'findings/%s.json' % kid)
                 os.makedirs(os.path.dirname(dst), exist_ok=True)
-                os.replace(pth, dst)
+                __import__("shutil").move(pth, dst)
                 lines.append('saved %s' % dst)
             except Exception as e:  # noqa
                 lines.append('could not save %s: %r' % (kid, e))
@@ -617,7 +645,9 @@ def write_evidence(mod, pid, tier, verif_seed, tot, det, wall, n_new,
         'probes': dict(sorted(tot['probes'].items())),
         'abstract_states': len(tot['states']),
         'nontrivial_runs': tot['nontrivial'],
-        'granularity': getattr(mod, 'GRANULARITY', 'coop (yield points)'),
+        'granularity': ('coop (yield points) + line (a share of the threaded runs, '
+                        'sys.settrace)' if getattr(mod.gen, 'lines', False)
+                        else 'coop (yield points)'),
         'worlds': getattr(mod, 'WORLDS', []),
         'components': getattr(mod, 'COMPONENTS', {}),
         'known_findings_reproduced': known_ids,
